@@ -128,6 +128,8 @@ def ascii_name_set(rng: random.Random, k: int, *, pairs: bool = True, maxlen: in
             out.append((base + rng.choice([".", " ", "'", '"', "/", ":", " (2)", "(2)", " (3)", "*"]))[:maxlen])
         elif r < 0.76:
             out.append((stem + rng.choice([" L", " R", "-L", "-R", " (2) L", " (2) R", " (2)", " L (2)"]))[:maxlen])
+        elif r < 0.82 and out:
+            out.append((rng.choice(out).rstrip() + rng.choice([".wav", ".WAV", ".wav ", ".Wav"]))[:maxlen])
         else:
             out.append(ascii_name(rng, maxlen))
     if rng.random() < 0.5:
